@@ -78,18 +78,9 @@ theorem tracesDiffer_spec {P : Prog} {G : Nat → Val} {X : Oracle} {fuel g : Na
     exact ⟨c1, t1, c2, t2, h1, h2, h.1, fun e => h.2 (by rw [e])⟩
   · cases h
 
-def bytesNat (l : List Val) : Nat :=
-  l.foldl (fun n v => match v with | .int b => n * 256 + b.toNat | _ => n) 0
-
-/-- external world for the witnesses: `big.Int.SetBytes` is exact, `big.Int.Bytes` returns the empty
-    encoding, everything else zeros of the declared arity (the leaked arguments are in the trace before the result is used) -/
-def bigX : Oracle := fun name args =>
-  if name = x_big_Int_SetBytes then
-    match args with
-    | [.arr b] => [.int (Int.ofNat (bytesNat b))]
-    | _ => [.int 0]
-  else if name = x_big_Int_Bytes then [.arr []]
-  else (sigs.ext.getD name []).map (fun _ => .int 0)
+/-- the external world of the witnesses: the concrete model of the math/big calls (SMGo/Model/CTIR.lean),
+    the one for which `OracleRel` is proved (SMGo/Proofs/CTIROracle.lean) -/
+def bigX : Oracle := stdOracle extKinds (fun _ _ => 0)
 
 def el (a : Nat) : Val := .arr [.arr [.int (Int.ofNat a), .int 0, .int 0, .int 0]]
 /-- two projective points that differ only in Z (raw Montgomery limbs) -/
